@@ -29,6 +29,7 @@ TABLE = {
     "c14_define_shadows_in_inner_scope.diff": ("contracts.c14", "define", None),
     "c14_error_not_counted.diff": ("contracts.c14", "error", None),
     "c09_xy_swapped.diff": ("contracts.c09", "_place_user_entity", None),
+    "c10_passthrough_decider_folded.diff": ("contracts.c10", "ConstantPropagationOptimizer.optimize", None),
     "c10_liveness_misses_consumers.diff": ("contracts.c10", "_maybe_mark_dead", None),
     "c16_iteration_scope_leaks.diff": ("contracts.c16", "lower_for_stmt", None),
     "c11_bundle_constant_scalar_value.diff": ("contracts.c11", "_get_const_value", None),
